@@ -493,13 +493,14 @@ prim_occ!(c43_x_prim_occ_then_occupied, 0, 0, 1, [4, 4], |r, skipped| {
 });
 
 io_harness! {
-/// slot counter at u32::MAX: `x + 1` overflows (needs 2^32 index entries = a 16 GiB primary file; thorough tier, reported separately)
+/// slot counter at u32::MAX (needs 2^32 index entries = a 16 GiB primary file): `x + 1` used to overflow (fixed: 5f7d5004), the iteration now ends
 /// bound: last_slot = u32::MAX, offsets symbolic; unwind 9
 fn c43_t_prim_slot_wrap() {
     let br = bufr(file_at(0, 8, &[4]));
     let mut rd = primary::verif_hooks::from_parts(br, 1, Some(u32::MAX), Some(Ok(kani::any())), Some(Ok(kani::any())));
     let r = rd.next();
-    kani::cover!(r.is_some(), "step taken");
+    assert!(r.is_none(), "no relative slot is left after u32::MAX: the iteration ends (it used to overflow `x + 1`)");
+    kani::cover!(r.is_none(), "iteration ended");
     core::mem::forget(r);
     core::mem::forget(rd);
 }
@@ -709,7 +710,7 @@ macro_rules! chunk_next {
 chunk_next!(c43_t_chunk_next_none, Slot::Non, Slot::Ok, [8], |r, st| { assert!(r.is_none(), "no current entry: end of chunk"); kani::cover!(r.is_none(), "end"); });
 chunk_next!(c43_t_chunk_next_index_err, Slot::Ok, Slot::Err, [8], |r, st| { assert!(matches!(r, Some(Err(chunk::Error::SecondaryIndexError(_)))) && !st.0 && !st.1, "index error forwarded and iteration ended"); kani::cover!(r.is_some(), "error"); });
 chunk_next!(c43_t_chunk_next_middle, Slot::Ok, Slot::Ok, [8], |r, st| { assert!(matches!(r, Some(Ok(_))) && st.0 && !st.1, "middle block read, next entry becomes current, index exhausted"); kani::cover!(matches!(r, Some(Ok(b)) if b.len() == 8), "8-byte middle block"); });
-chunk_next!(c43_t_chunk_next_middle_trunc, Slot::Ok, Slot::Ok, [3], |r, st| { kani::cover!(matches!(r, Some(Err(chunk::Error::CannotReadBlock(_)))), "truncated chunk reported"); kani::cover!(matches!(r, Some(Ok(_))), "short block still complete"); });
+chunk_next!(c43_t_chunk_next_middle_trunc, Slot::Ok, Slot::Ok, [3], |r, st| { kani::cover!(matches!(r, Some(Err(chunk::Error::CannotReadBlock(_)))), "truncated chunk reported"); });
 chunk_next!(c43_t_chunk_next_last, Slot::Ok, Slot::Non, [8, 8], |r, st| { assert!(matches!(r, Some(Ok(_))) && !st.0 && !st.1, "last block read, iteration ended"); kani::cover!(matches!(r, Some(Ok(b)) if b.len() == 16), "16-byte last block"); });
 chunk_next!(c43_t_chunk_next_last_err, Slot::Ok, Slot::Non, [8, E], |r, st| { assert!(matches!(r, Some(Err(chunk::Error::CannotReadBlock(_)))) && !st.0, "read error reported, iteration ended"); kani::cover!(r.is_some(), "error"); });
 
